@@ -367,6 +367,19 @@ ADDED3 = {
            "every stream also with verbose library logging.",
     "C20": " Subscribers that unregister themselves in their callback; arbitrary interval fields in Tridonic reports.",
 }
+ADDED4 = {
+    "C01": " Decoding from other threads, re-entered decodes, warnings as errors, frames of application ForwardFrame "
+           "subclasses, package-only import histories.",
+    "C03": " Flags after generic objects were asked first; every 24-bit row under maps; yes/no options as non-bools; each "
+           "class's own decoder.",
+    "C07": " Gear that needs the documented time after RANDOMISE.",
+    "C08": " Documented parameter names as keywords.",
+    "C13": " A caller that sends as soon as the connection is up, during the connect-time scan.",
+    "C18": " Tridonic bus-status reports that end nothing, then the answer; LUBA gateway model honours mode settings.",
+}
+for _k, _v in ADDED4.items():
+    if _k in CHECKS:
+        CHECKS[_k]["text"] = CHECKS[_k]["text"] + _v
 for _k, _v in ADDED3.items():
     if _k in CHECKS:
         CHECKS[_k]["text"] = CHECKS[_k]["text"] + _v
